@@ -121,7 +121,7 @@ func c17KeyPairs() fw.Result {
 	}
 	// two grouping columns: text tuples that collide under any "join the components with a middle" key encoding
 	sql2 := "SELECT j, k, count(*) AS c, sum(v) AS s FROM stream GROUP BY j, k, GLOBAL WINDOW TRIGGER WHEN count(*) >= 2"
-	for _, pr := range middlePairs() {
+	for _, pr := range collisionPairs() {
 		var rows []Row
 		for n, v := range []float64{1, 10, 2, 20} {
 			rows = append(rows, Row{"id": n + 1, "v": v, "j": pr[n%2][0], "k": pr[n%2][1]})
@@ -218,7 +218,7 @@ func c10KeyPairs() fw.Result {
 		}
 	}
 	sql2 := "SELECT j, k, count(*) AS c, collect(id) AS ids, window_start() AS ws, window_end() AS we FROM stream GROUP BY j, k, SessionWindow('2000ms') WITH (TIMESTAMP='ts', TIMEUNIT='ms')"
-	for _, pr := range middlePairs() {
+	for _, pr := range collisionPairs() {
 		var rows []Row
 		for n, ts := range []int64{10000, 10600, 11000} {
 			rows = append(rows, Row{"id": n + 1, "ts": ts, "j": pr[n%2][0], "k": pr[n%2][1]})
@@ -290,4 +290,118 @@ func middlePairs() [][2][2]string {
 		}
 	}
 	return out
+}
+
+// escapePairs: pairs of distinct two-component text tuples that collide under a FAULTY escaping key encoder. With
+// separator S and escape character E the sound encoding escapes E first and S second; the faulty variants are:
+// the two steps swapped, only S escaped, only E escaped, nothing escaped. Components: every string of at most three
+// tokens over {a, S, E}; all colliding pairs of every variant, for (S,E) = ('|','\\') and ('\x1f','\\').
+func escapePairs() [][2][2]string {
+	var out [][2][2]string
+	seen := map[string]bool{}
+	for _, se := range [][2]string{{"|", "\\"}, {"\x1f", "\\"}} {
+		S, E := se[0], se[1]
+		comps := []string{""}
+		toks := []string{"a", S, E}
+		var rec func(prefix string, n int)
+		rec = func(prefix string, n int) {
+			if n == 0 {
+				return
+			}
+			for _, t := range toks {
+				comps = append(comps, prefix+t)
+				rec(prefix+t, n-1)
+			}
+		}
+		rec("", 3)
+		encs := []func(string) string{
+			func(c string) string { return strings.ReplaceAll(strings.ReplaceAll(c, S, E+S), E, E+E) },
+			func(c string) string { return strings.ReplaceAll(c, S, E+S) },
+			func(c string) string { return strings.ReplaceAll(c, E, E+E) },
+			func(c string) string { return c },
+		}
+		for _, f := range encs {
+			buckets := map[string][][2]string{}
+			var order []string
+			for _, x := range comps {
+				for _, y := range comps {
+					k := f(x) + S + f(y)
+					if _, ok := buckets[k]; !ok {
+						order = append(order, k)
+					}
+					buckets[k] = append(buckets[k], [2]string{x, y})
+				}
+			}
+			for _, k := range order {
+				b := buckets[k]
+				for _, u := range b[1:] {
+					id := b[0][0] + "\x00" + b[0][1] + "\x00" + u[0] + "\x00" + u[1]
+					if !seen[id] {
+						seen[id] = true
+						out = append(out, [2][2]string{b[0], u})
+					}
+				}
+			}
+		}
+	}
+	return out
+}
+
+// collisionPairs: every pair of the two families above.
+func collisionPairs() [][2][2]string { return append(middlePairs(), escapePairs()...) }
+
+// c09KeyPairs: CountingWindow(2) grouped by two columns, rows keyed t1,t2,t1,t2 for every colliding text tuple pair and
+// for the group-key identity alphabet in the second column: batches {1,3} and {2,4} (one batch {1,2},{3,4} order for
+// NULL/missing, which are one key).
+func c09KeyPairs() fw.Result {
+	a := newAcc("C09", "det-counting-key-pairs")
+	sql := "SELECT j, k, count(*) AS c, collect(id) AS ids FROM stream GROUP BY j, k, CountingWindow(2)"
+	run := func(set func(n int, r Row), same bool, desc, shape string) {
+		var rows []Row
+		for n := 0; n < 4; n++ {
+			r := Row{"id": n + 1}
+			set(n, r)
+			rows = append(rows, r)
+		}
+		want := "[1 3];[2 4]"
+		if same {
+			want = "[1 2];[3 4]"
+		}
+		r := detExec(sql, detOpts{Eager: true, Horizon: 100 * vtime.Millisecond}, func(e *Env) {
+			for _, row := range rows {
+				e.Emit(copyVal(row).(map[string]any))
+			}
+		})
+		a.r.Evaluations++
+		a.r.States++
+		a.r.Nontrivial++
+		a.r.Transitions += int64(r.Steps)
+		cs := map[string]any{"sql": sql, "rows": rows}
+		if r.ExecErr != "" || r.Status != sched.StatusOK {
+			a.fail("C09|key-pairs|exec", r.ExecErr+" "+r.Status.String()+" "+firstLine(r.Panic), cs, nil, nil)
+			return
+		}
+		var got []string
+		for _, b := range r.Batches {
+			for _, row := range b {
+				got = append(got, fmt.Sprint(sortedInts(idList(row["ids"]))))
+			}
+		}
+		a.outcome(strings.Join(got, ";"))
+		if strings.Join(got, ";") != want {
+			a.fail("C09|key-pairs|keys-confused|"+shape, fmt.Sprintf("%s; rows keyed %s alternately: batches %v, reference %s", sql, desc, got, want), cs, want, got)
+		}
+	}
+	for _, pr := range collisionPairs() {
+		pr := pr
+		run(func(n int, r Row) { r["j"], r["k"] = pr[n%2][0], pr[n%2][1] }, false, fmt.Sprintf("%q / %q", pr[0], pr[1]), "text+text")
+	}
+	for i, k1 := range gkeyAlphabet {
+		for _, k2 := range gkeyAlphabet[i+1:] {
+			k1, k2 := k1, k2
+			run(func(n int, r Row) { r["j"] = "x"; []gkey{k1, k2}[n%2].set(r, "k") }, k1.class() == k2.class(), k1.Name+" / "+k2.Name, gkeyShape(k1, k2))
+		}
+	}
+	a.sample(map[string]any{"sql": sql, "pairs": len(collisionPairs())})
+	return a.result()
 }
